@@ -71,6 +71,50 @@ def forked(n, fn):
     return out
 
 
+def as_user(fn, uid=65534):
+    """fn() in a forked child that has given up root (uid/gid 65534, no supplementary groups): root ignores permission bits, an
+    ordinary user does not.  The caller has run the same code once already in this process (every module it needs is imported:
+    the interpreter's own library is not readable for that user here).  The scratch HOME of this process is handed over to the
+    user first.  The DRBG state is inherited as it is (one child, same values as the parent would have drawn)."""
+    import pickle
+    home = worker_home()
+    top = scratch_home()
+    for d in {top, home}:
+        os.chmod(d, 0o711)
+    for root, dirs, files in os.walk(home):
+        os.chown(root, uid, uid)
+        for f in files:
+            os.chown(os.path.join(root, f), uid, uid)
+    rfd, wfd = os.pipe()
+    pid = os.fork()
+    if pid == 0:
+        try:
+            os.close(rfd)
+            try:
+                os.setgroups([])
+                os.setgid(uid)
+                os.setuid(uid)
+                _state['worker_pid'] = os.getpid()          # keep using the scratch HOME that was just handed over
+                _state['worker_home'] = home
+                res = ('ok', fn())
+            except BaseException as e:  # noqa
+                import traceback
+                res = ('exc', '%s: %s\n%s' % (type(e).__name__, e, traceback.format_exc()[-1500:]))
+            with os.fdopen(wfd, 'wb') as f:
+                pickle.dump(res, f)
+        finally:
+            os._exit(0)
+    os.close(wfd)
+    with os.fdopen(rfd, 'rb') as f:
+        data = f.read()
+    os.waitpid(pid, 0)
+    for root, dirs, files in os.walk(home):          # back to root, whatever the child created
+        os.chown(root, 0, 0)
+        for f in files:
+            os.chown(os.path.join(root, f), 0, 0)
+    return pickle.loads(data) if data else ('exc', 'child died without a result')
+
+
 def scratch_home():
     """Redirect HOME to a fresh directory under /dev/shm BEFORE any frontend.* / toolkit.logger import
     (those modules compute ~/.sse paths at import time).  Removed at exit by the creating process only."""
